@@ -771,7 +771,6 @@ fn run_one<C: GenericConfig<D, F = F>>(s: &Scenario, selftest: bool, max_cor: us
     }
     let identity: Vec<usize> = (0..a0.values.len()).collect();
     let nch = common.config.num_challenges;
-    let _ = degree;
     for (ci, c) in cors.iter().enumerate() {
         let mut a = c.assign.clone().unwrap_or_else(|| a0.clone());
         for (t, v) in &c.edits {
@@ -799,7 +798,7 @@ fn run_one<C: GenericConfig<D, F = F>>(s: &Scenario, selftest: bool, max_cor: us
             if !is_ext && st != "plain" && !knob_strats.is_empty() && knob_strats[ci % knob_strats.len()] != st {
                 continue;
             }
-            if is_ext && !(c.kind == "none" || ci % ext_every == 0 || (bad_pairs > 0 && ci % 2 == 0 && ext_every < 1000)) {
+            if is_ext && !(c.kind == "none" || ci % ext_every == 0 || ((bad_pairs > 0 || c.kind == "lu_pad") && ci % 2 == 0 && ext_every < 1000)) {
                 continue;
             }
             let res = if is_ext {
